@@ -3,7 +3,8 @@ C11: staging directives move the named data to the named place.
 
 1. the design model Staging is checked exhaustively by TLC over all its cases
    (directive lists of length <= 2 in both forms, all actions, all schemas,
-   missing sources, task outcome, stage_on_error); the same run is the
+   missing sources, targets that exist already, task outcome DONE / FAILED /
+   CANCELED, stage_on_error); the same run is the
    enumerator of the rig's inputs (every initial state is printed);
 2. thorough: every Dev constant set TRUE must break its invariant;
 3. each case (quick: one per transition class, seeded; thorough: all) is
@@ -12,7 +13,7 @@ C11: staging directives move the named data to the named place.
    (rigs/staging_rig.py);
 4. StagingTrace validates every recorded trace against the intended design
    (Dev = FALSE): clauses C11.*;
-5. the same traces are validated for exact conformance (trees, inode sharing,
+5. thorough: the same traces are validated for exact conformance (trees, inode sharing,
    task states) against the model with the Dev constants set to what step 4
    found in the code: clauses M.* (reported as notes - they measure how
    faithfully the model follows the code, not the property).
@@ -27,9 +28,11 @@ from ..rigs import staging_rig as R
 INVARIANTS = ['TypeOK', 'InvPlaced', 'InvCarried', 'InvMissingFails', 'InvFailureJustified',
               'InvMoveRemoves',
               'InvLinkShares', 'InvOutOnlyIfDone', 'InvStageOnError', 'InvFailureLocal']
-DEVS = ['DevTarballSkipped', 'DevCopyIgnoresStatus', 'DevClientSkipsOnError', 'DevCopyUnquoted']
+DEVS = ['DevTarballSkipped', 'DevCopyIgnoresStatus', 'DevClientSkipsOnError', 'DevCopyUnquoted',
+        'DevDirTestInCwd']
 EXPECT = {'DevTarballSkipped': 'InvCarried', 'DevCopyIgnoresStatus': 'InvMissingFails',
-          'DevClientSkipsOnError': 'InvStageOnError', 'DevCopyUnquoted': 'InvFailureJustified'}
+          'DevClientSkipsOnError': 'InvStageOnError', 'DevCopyUnquoted': 'InvFailureJustified',
+          'DevDirTestInCwd': 'InvPlaced'}
 
 WORKERS = 8         # the run is bound by the (sequential) enumeration of the initial states
 MON_WORKERS = 1
@@ -85,6 +88,7 @@ def kclass(k):
 
 
 HOSTILE = 'hostile file name (space)'
+CWDDIR  = 'relative target, working directory holds a directory of that name'
 
 
 def hostile(c):
@@ -106,6 +110,8 @@ def case_classes(c):
         ks.append(('src', dr, d['form'], d['act'], kclass(d['sk']), d['sp'] == 'm'))
         ks.append(('tgt', dr, d['form'], d['act'], kclass(d['tk'])))
         ks.append(('sub', dr, d['act'], d['tp']))
+        if d['tk'] in ('absfile', 'relcwd', 'relcwddir', 'absdir'):      # target exists already
+            ks.append(('exists', d['act'], d['tk'], d['sp'] == 'm'))
         if d['tk'] in ('omit', 'empty', 'absdir'):
             ks.append(('base', dr, d['act'], d['tk'], d['sp']))
         if dr == 'out':
@@ -150,6 +156,12 @@ def classify(case, clause, info):
         return 'TARBALL input directive'
     if hostile(case):
         return HOSTILE
+    if clause == 'C11.OutOnlyIfDone':
+        return 'task outcome %s, no stage_on_error' % case['oc']
+    if any(d['tk'] == 'relcwddir' for d in case['din']):
+        return CWDDIR
+    if any(d['tk'] in ('absfile', 'relcwd', 'absdir') for d in case['din']):
+        return 'target exists already (%s)' % '/'.join(acts)
     return 'actions %s' % '/'.join(acts)
 
 
@@ -168,7 +180,7 @@ def split(errs):
             [e for e in errs if e.startswith('I.')])
 
 
-def judge(chk, traces, kind):
+def judge(chk, traces, kind, conform=True):
     '''property run (Dev FALSE) + conformance run; returns (#violating traces, notes)'''
     res, st = tracecheck.validate('Staging', 'StagingTrace', constants(mode='property'), traces,
                                   timeout=1500, workers=MON_WORKERS, max_batch=1000)
@@ -192,6 +204,8 @@ def judge(chk, traces, kind):
             if err.startswith('X.'):
                 raise Machinery('trace of case %s is malformed: %s' % (case, err))
             cls = classify(case, err, info)
+            if cls == CWDDIR:
+                found.add('DevDirTestInCwd')
             if cls == HOSTILE:
                 found.add('DevCopyUnquoted')
                 if err == 'C11.Placed':         # cp failed and nobody noticed
@@ -207,6 +221,10 @@ def judge(chk, traces, kind):
                           {'rig': 'staging', 'case': case, 'errs': errs})
     if nsoe:
         found.add('DevClientSkipsOnError')
+
+    if not conform:
+        return {'violating': nbad, 'soe_skipped': nsoe, 'devs': sorted(found),
+                'conform': None, 'nonconform': []}
 
     # conformance with the model in the shape the code was found in
     res2, st2 = tracecheck.validate('Staging', 'StagingTrace',
@@ -252,13 +270,14 @@ def run(chk, tier, seed):
     chk.evaluations += len(traces)
 
     # ---- 4./5. monitor ---------------------------------------------------------
-    out = judge(chk, traces, 'sampled' if quick else 'enumerated')
+    out = judge(chk, traces, 'sampled' if quick else 'enumerated', conform=not quick)
     chk.notes.append('%d cases in the model, %d run through the real stagers, %d violate C11'
                      % (len(cases), len(traces), out['violating']))
-    chk.notes.append('conformance: %d of %d traces match the model exactly (trees, inode '
-                     'sharing, task states) with %s'
-                     % (out['conform'], len(traces),
-                        ', '.join(d + '=TRUE' for d in out['devs']) or 'all deviations off'))
+    if out['conform'] is not None:
+        chk.notes.append('conformance: %d of %d traces match the model exactly (trees, inode '
+                         'sharing, task states) with %s'
+                         % (out['conform'], len(traces),
+                            ', '.join(d + '=TRUE' for d in out['devs']) or 'all deviations off'))
     for case, errs in out['nonconform'][:5]:
         chk.notes.append('non-conforming trace: %s %s' % (errs, case))
     if out['soe_skipped']:
